@@ -43,4 +43,54 @@ theorem hasDerivAt_psiPrim (u a y : ℝ) (hu : u ≠ 0) :
   refine (hs.div_const u).congr_deriv ?_
   field_simp
 
+open intervalIntegral
+
+/-- χ_k(c,d) = ∫_c^d e^y cos(u (y-a)) dy  with u = kπ/(b-a): the closed form coded in `COSPricer.xi` -/
+theorem chi_integral (u a c d : ℝ) :
+    ∫ y in c..d, exp y * cos (u * (y - a))
+      = chiOf u (cos (u * (d - a))) (sin (u * (d - a))) (exp d) (cos (u * (c - a))) (sin (u * (c - a))) (exp c) := by
+  have hint : IntervalIntegrable (fun y => exp y * cos (u * (y - a))) MeasureTheory.volume c d :=
+    (by fun_prop : Continuous fun y => exp y * cos (u * (y - a))).intervalIntegrable c d
+  rw [integral_eq_sub_of_hasDerivAt (fun y _ => hasDerivAt_chiPrim u a y) hint]
+  unfold chiPrim chiOf
+  ring
+
+/-- ψ_k(c,d) = ∫_c^d cos(u (y-a)) dy for k ≠ 0 -/
+theorem psi_integral (u a c d : ℝ) (hu : u ≠ 0) :
+    ∫ y in c..d, cos (u * (y - a)) = psiOf false u (sin (u * (d - a))) (sin (u * (c - a))) c d := by
+  have hint : IntervalIntegrable (fun y => cos (u * (y - a))) MeasureTheory.volume c d :=
+    (by fun_prop : Continuous fun y => cos (u * (y - a))).intervalIntegrable c d
+  rw [integral_eq_sub_of_hasDerivAt (fun y _ => hasDerivAt_psiPrim u a y hu) hint]
+  unfold psiOf
+  simp only [Bool.false_eq_true, if_false]
+  ring
+
+/-- ψ_0(c,d) = ∫_c^d 1 dy = d - c (the `k = 0` branch) -/
+theorem psi_integral_zero (a c d sd sc : ℝ) :
+    ∫ y in c..d, cos (0 * (y - a)) = psiOf true 0 sd sc c d := by
+  simp [psiOf]
+
+/-- the put coefficient `u_put(k,a,b)` is `2/(b-a) ∫_a^0 (1 - e^y) cos(u (y-a)) dy` — the cosine coefficient of the
+strike-normalised put payoff `(1 - e^y)^+` on `[a, b]` (a ≤ 0 ≤ b) — for k ≠ 0 -/
+theorem uput_integral (u a b : ℝ) (hu : u ≠ 0) :
+    2 / (b - a) * ∫ y in a..(0:ℝ), (1 - exp y) * cos (u * (y - a))
+      = uPut a b
+          (chiOf u (cos (u * (0 - a))) (sin (u * (0 - a))) (exp 0) (cos (u * (a - a))) (sin (u * (a - a))) (exp a))
+          (psiOf false u (sin (u * (0 - a))) (sin (u * (a - a))) a 0) := by
+  have h1 : IntervalIntegrable (fun y => cos (u * (y - a))) MeasureTheory.volume a 0 :=
+    (by fun_prop : Continuous fun y => cos (u * (y - a))).intervalIntegrable a 0
+  have h2 : IntervalIntegrable (fun y => exp y * cos (u * (y - a))) MeasureTheory.volume a 0 :=
+    (by fun_prop : Continuous fun y => exp y * cos (u * (y - a))).intervalIntegrable a 0
+  have e : (fun y => (1 - exp y) * cos (u * (y - a))) = fun y => cos (u * (y - a)) - exp y * cos (u * (y - a)) := by
+    funext y; ring
+  rw [e, integral_sub h1 h2, psi_integral u a a 0 hu, chi_integral u a a 0]
+  unfold uPut
+  ring
+
+/-- the digital coefficient is `2/(b-a) ∫_0^b cos(u (y-a)) dy` for k ≠ 0 -/
+theorem vdigital_integral (u a b : ℝ) (hu : u ≠ 0) :
+    2 / (b - a) * ∫ y in (0:ℝ)..b, cos (u * (y - a))
+      = vDigital a b (psiOf false u (sin (u * (b - a))) (sin (u * (0 - a))) 0 b) := by
+  rw [psi_integral u a 0 b hu]; rfl
+
 end Rpylib.Pricers.Integrals
